@@ -37,6 +37,10 @@ type DriverSpec struct {
 	// Destination: single port or interleaved over several.
 	Dsts       []string `json:"dsts"`
 	Interleave uint64   `json:"interleave"`
+	// WordMod > 0: every request is one aligned 4-byte word whose index satisfies (addr/4) % WordMod == WordRem
+	// (lets several drivers share cache lines without sharing bytes).
+	WordMod uint64 `json:"word_mod"`
+	WordRem uint64 `json:"word_rem"`
 	// SendPID: set the PID field of requests (translation stacks); otherwise 0.
 	SendPID bool `json:"send_pid"`
 }
@@ -273,6 +277,15 @@ func (m *driverMW) issue() bool {
 				n = 1 + d.intn(sp.LineSize-off)
 				addr = base + off
 			}
+			if sp.WordMod > 0 {
+				words := sp.LineSize / 4
+				w := d.intn(words)
+				w = w - w%sp.WordMod + sp.WordRem
+				if w >= words {
+					continue
+				}
+				addr, n = base+w*4, 4
+			}
 			if !m.overlaps(pid, addr, n) {
 				ok = true
 				break
@@ -306,7 +319,7 @@ func (m *driverMW) issue() bool {
 			msg = r
 			st.Reads++
 		} else {
-			if int(d.intn(100)) < sp.FullPct {
+			if sp.WordMod == 0 && int(d.intn(100)) < sp.FullPct {
 				// widen to the whole line unless that overlaps
 				base := addr - addr%sp.LineSize // AddrBase, LineStride and PIDStride are multiples of LineSize
 				if !m.overlaps(pid, base, sp.LineSize) {
